@@ -148,12 +148,15 @@ LEVELS = {
     "C04": ("proof",
             "Proof: the structural postcondition of tx.miter (node set, disjointness from add()'s existence checks, copies with inputs turned into buffers, ties, xor per endpoint, or/buf output, inputs = tied startpoints, outputs = {sat}, arguments untouched, fresh result) is discharged on the real body for self/pair and default/explicit startpoint-endpoint variants, and the encoding lemma (sat <=> some compared endpoint differs; ties; untied copy inputs free) is discharged over that structure. solve(miter,{sat:1}) then follows from the C01 contract. Bounded stand-in as cross-check.",
             "assumed: contract of Circuit.add_subcircuit (contracts/layer2.py; bounded-checked by C06), networkx contracts; M1, M5 (graph-isomorphism invariance of consistency, not Lean-checked)"),
+    "C19": ("proof",
+            "Proof of the frame condition by an effect / may-alias analysis over the real ASTs (pyvc/frame.py): for each of the 64 public functions of tx, props, sat, the io writers, utils.lint/visualize and the read-only Circuit methods, every potentially mutating operation (Circuit mutators, networkx graph mutators, dict/attribute stores, in-place relabel) is shown to be applied only to objects allocated in that activation, on all branches and exceptional edges, and every returned circuit (also inside returned containers) is shown not to share its graph, node-attribute dicts or registry with an argument. Read-only Circuit methods additionally have exact view contracts proved on their bodies. Independence under later edits is exercised by the bounded edit battery.",
+            "assumed: effect summaries of networkx / dict operations and of the library's own mutators (pyvc/frame.py: copy() and relabel_nodes(copy=True) return fresh objects, subgraph() is a view sharing attribute dicts, BlackBox objects are immutable and shared by design); assume-guarantee between library functions (each callee's fresh-result summary is the obligation of its own task); values are abstracted, so a flagged site is 'undecided', not a violation"),
 }
 for _p, (_lvl, _txt, _note) in LEVELS.items():
     CHECKS[_p]["level"] = _lvl
     CHECKS[_p]["level_text"] = _txt
     CHECKS[_p]["level_note"] = _note
     CHECKS[_p]["lean"] = True
-for _p in ("C07", "C12", "C13", "C19"):
+for _p in ("C07", "C12", "C13"):
     CHECKS[_p]["level_text"] = ("Bounded stand-in of the contract, PLUS proved obligations for part of the functions the property depends on "
                                 "(reported in evidence.coverage.obligations/functions_under_contract; not claimed as a proof of the whole property): ") + CHECKS[_p]["level_text"]
